@@ -604,6 +604,9 @@ def run_chunk(chunk, tier):
             for zb in range(len(ZORD)):
                 for kmode, vkind in (("float", "float"), ("sym", "sym"), ("named", "float"), ("int", "sym")):
                     _check_orders(res, za, zb, kmode, vkind)
+        for vi in range(len(ND_VALUES)):
+            for order in (1, 2):
+                _check_named_default(res, vi, order)
         res.sample(dict(layer="Z", orders=[str(z) for z in ZORD], example="A + 0 B -> C and 1/2 B -> C: c**0 == 1, c**(1/2)"))
     elif chunk[0] == "S1":
         for i in range(len(t["pool"])):
@@ -749,6 +752,43 @@ def _check_orders(res, za, zb, kmode, vkind):
                               dict(case, expect_key=k), _show(g), _show(exp))
 
 
+ND_VALUES = ["absent", 0, 0.0, Fr(0), 3, Fr(5, 2), "sym"]
+
+
+def _check_named_default(res, vi, order):
+    """a rate constant that carries a stored value AND a name (MassAction([7], unique_keys=['k1'])): the value bound to the name in the
+    variables is the constant used - whatever it is, also zero - and the stored value is used only when the name is left unbound"""
+    import sympy
+    from chempy import Reaction, ReactionSystem
+    from chempy.kinetics.rates import MassAction
+
+    v = ND_VALUES[vi]
+    val = 7 if v == "absent" else (sympy.Symbol("kbound") if v == "sym" else v)
+    a = 2 if order == 1 else 3
+    reac = {"A": 1} if order == 1 else {"A": 2}
+    variables = {"A": a, "B": 5}
+    if v != "absent":
+        variables["k1"] = val
+    r = val * (a if order == 1 else a * a)
+    exp = {"A": -order * r, "B": r}
+    case = dict(layer="ND", vi=vi, order=order)
+    res.states += 1
+    res.transitions += 2
+    res.nontrivial += 1
+    for api in ("Reaction.rate", "ReactionSystem.rates"):
+        res.evaluations += 1
+        try:
+            rxn = Reaction(dict(reac), {"B": 1}, MassAction([7], unique_keys=["k1"]))
+            g = rxn.rate(dict(variables)) if api == "Reaction.rate" else ReactionSystem([rxn], "AB", checks=()).rates(dict(variables))
+        except Exception as e:
+            g = "EXC %s: %s" % (type(e).__name__, e)
+        ok = isinstance(g, dict) and all(_zsame(g.get(k_, 0), x) for k_, x in exp.items())
+        res.outcomes["%s named constant with a stored value, bound to %s" % ("ok" if ok else "WRONG", "nothing" if v == "absent" else ("zero" if v in (0, 0.0, Fr(0)) and not isinstance(v, str) else "a value"))] += 1
+        if not ok:
+            k = "C03|%s|named-constant-with-stored-value|bound-to-%s" % (api, "nothing" if v == "absent" else ("zero" if not isinstance(v, str) and v == 0 else "a-value"))
+            res.violation(k, "Reaction(%r -> B, MassAction([7], unique_keys=['k1'])): %s(%s) = %s, model %s" % (reac, api, _show(variables), _show(g), _show(exp)), dict(case, expect_key=k), _show(g), _show(exp))
+
+
 def _zsame(got, exp):
     import sympy
     import numpy as np
@@ -778,6 +818,12 @@ def replay(case):
             if v["key"] == case.get("expect_key") or not case.get("expect_key"):
                 return dict(key=v["key"], what=v["what"], observed=v["observed"], expected=v["expected"])
         return dict(key=res.violations[0]["key"], what=res.violations[0]["what"], observed=res.violations[0]["observed"], expected=res.violations[0]["expected"]) if res.violations else None
+    if case["layer"] == "ND":
+        _check_named_default(res, case["vi"], case["order"])
+        for v in res.violations:
+            if v["key"] == case.get("expect_key"):
+                return dict(key=v["key"], what=v["what"], observed=v["observed"], expected=v["expected"])
+        return None
     if case["layer"] == "Z":
         _check_orders(res, case["za"], case["zb"], case["kmode"], case["vkind"])
         for v in res.violations:
